@@ -377,7 +377,13 @@ class HttpRpc(SimpleDictDocument):
         ctx.out_string = ctx.out_document
 
     def boolean_from_bytes(self, cls, string):
-        return string.lower() in ('true', '1', 'checked', 'on')
+        # html forms send 'on' or 'checked' for ticked checkboxes
+        if string.strip().lower() in ('checked', 'on'):
+            return True
+        if string.strip().lower() in ('unchecked', 'off', ''):
+            return False
+
+        return super(HttpRpc, self).boolean_from_bytes(cls, string)
 
     def integer_from_bytes(self, cls, string):
         if string == '':
